@@ -34,7 +34,7 @@ def checks():
          "replay_cmd_template": f"cd /verif && {PY} -m dsim replay {{path}}",
          "evidence_file": "/verif/evidence/C20.json",
          "engine": "fssim",
-         "technique": "deterministic simulation with fault injection: the save runs against a simulated disk (interposed open/mmap/file proxies incl. torn and deferred-lost writes, RLIMIT_FSIZE disk-capacity seam, simulated progress stream and clock); for each seeded (model, call configuration) case every single fault point of its file-system event stream is enumerated, second faults are placed on the events that exist only during error unwinding; invariants (model untouched, round trip by two readers, refusal before any write, retry recovers, second and repeated saves) checked after every simulated save; failures minimised to a replay file that must reproduce in a fresh process",
+         "technique": "deterministic simulation with fault injection: the save runs against a simulated disk (interposed open/mmap/file proxies incl. torn and deferred-lost writes, RLIMIT_FSIZE disk-capacity seam, simulated progress stream and clock); for each seeded (model, call configuration) case every single fault point of its file-system event stream is enumerated, second faults are placed on the events that exist only during error unwinding; invariants (model untouched, round trip by two readers, refusal before any write, retry recovers, second and repeated saves, a save after the caller edited the model) checked after every simulated save; failures minimised to a replay file that must reproduce in a fresh process",
          "level_claimed": {"category": "fault_enumeration", "design_ref": "DESIGN.md section 4",
            "text": "For each seeded (model, call configuration) case the complete set of single faults over the save's file-system event stream is enumerated (exhaustive per case), plus seeded double faults; model-unchanged, round-trip, refusal-before-write and retry-recovers invariants are checked after every simulated save. Cases themselves are sampled, so this is evidence over a seeded family of models, not a proof."},
          "level_note": "Trusts CPython, the kernel's RLIMIT_FSIZE semantics as a stand-in for ENOSPC, and the check's own readers (onnx_ir.load, onnx.load) used as round-trip oracles. Code under test and all libraries (onnx_ir, onnx, numpy, tqdm) run for real; only the disk, stderr and tqdm's clock are simulated.",
@@ -47,7 +47,7 @@ def checks():
          "replay_cmd_template": f"cd /verif && {PY} -m dsim replay {{path}}",
          "evidence_file": "/verif/evidence/C14.json",
          "engine": "procsim",
-         "technique": "deterministic simulation with fault injection: each run is a simulated long-lived process (env -i, ASLR off via setarch -R, seeded PYTHONHASHSEED, heap skew before imports and between operations, GC pacing, private scratch directory) executing a seeded history of translate/optimize/rewrite/convert operations on shared long-lived decorator/pass/rule-set objects, with callee exceptions injected at traced call boundaries (aimed at the window after a node replacement, or uniform); every non-faulted operation's serialized result is compared byte-for-byte with the same operation alone in pristine processes under 4-8 (hash seed, heap layout) environments; failures are ddmin-minimised and replayed exactly (including the reference processes)",
+         "technique": "deterministic simulation with fault injection: each run is a simulated long-lived process (env -i, ASLR off via setarch -R, seeded PYTHONHASHSEED, heap skew before imports and between operations, GC pacing, private scratch directory) executing a seeded history of translate/optimize/rewrite/convert operations on shared long-lived decorator/pass/rule-set objects, with callee exceptions of eleven classes injected at traced call boundaries (aimed at the window after a node replacement, or uniform); every non-faulted operation's serialized result is compared byte-for-byte with the same operation alone in pristine processes under 4-8 (hash seed, heap layout) environments; failures are ddmin-minimised and replayed exactly (including the reference processes)",
          "level_claimed": {"category": "exploration", "design_ref": "DESIGN.md section 3",
            "text": "Seeded search over (process environment x operation history x fault plan); differential oracle against pristine single-operation processes under several hash seeds. Sampling, not enumeration: a clean batch is evidence that no seed/history/fault dependence exists in the explored pools."},
          "level_note": "Trusts CPython, setarch -R address pinning, and that BLAS/OMP are single-threaded as pinned. Everything in the simulated processes is real code (onnxscript from /repo's working tree, onnx_ir, onnx, numpy).",
